@@ -17,6 +17,10 @@ var commonAssumptions = []string{
 }
 
 var propMeta = map[string]PropMeta{
+	"C08": {
+		NotCovered: "Wall-clock promptness, goroutine / file-descriptor / child-process counts, kill -9 and truncation at byte offsets are not expressible as contracts on these functions; the stdio reader's blocking Decode is ended by the pipe closing (os/exec, assumed). The emptying loop of the stdio close() (range-delete) is not proved to leave the table empty. That a stdio call which returns no error returns a non-nil result depends on what the reader sends on the channel (not under contract).",
+		Assumptions: append([]string{"net/http aborts an exchange and every read of its response body when the context the request was built with ends", "a context.CancelFunc ends its context; the stored body-close function of the SSE stream only closes that body", "(*exec.Cmd).Wait returns when the child has exited, however it exited", "cancellability obligations are structural (goal true/false from the select's cases), not semantic"}, commonAssumptions...),
+	},
 	"C14": {
 		NotCovered: "Equality of the JSON-RPC results themselves is reduced to 'the same manager entry point is invoked with the same request and its result is wrapped the same way'; order of listed items and error wording are outside the property; the stdio client's re-marshalling of results is encoding/json's behaviour.",
 		Assumptions: append([]string{"a transport returns a non-nil raw message when it returns no error (checked for the concrete transports under C08)"}, commonAssumptions...),
